@@ -276,6 +276,12 @@ AddService(T, name, nstype, ifs, site, rp) ==
              T1 == [T EXCEPT !.el = Upd(T.el, s, SvcEl(name, nstype, site, rp))]
          IN  ConnectSeq(T, T1, s, nstype, ifs)
 
+\* add_port_mirror_service: a PortMirror service with the mirrored-to interface connected, mirror port/direction recorded
+AddPortMirror(T, name, from, to) ==
+    LET r == AddService(T, name, "PortMirror", <<to>>, "", <<>>) IN
+    IF r.out # "ok" THEN r
+    ELSE Ok([r.st EXCEPT !.el[SvcPath(name)].sp = Over(@, [MirrorPort |-> from, MirrorDirection |-> "Both"])])
+
 RemoveService(T, name) ==
     IF Cardinality(Named(T, NS, name)) # 1 THEN Fail(T, QErr)
     ELSE LET s == CHOOSE p \in Named(T, NS, name) : TRUE
@@ -542,6 +548,46 @@ ValidateFailAdmissible(T, O) ==
     /\ DOMAIN O.el = DOMAIN T.el /\ O.conn = T.conn
     /\ \A p \in DOMAIN T.el : O.el[p] = T.el[p] \/ O.el[p] = Inferred(T).el[p]
 
+\* ------------------------------------------------------------------ authorization / accounting attributes (C11)
+\* (fim/authz/attribute_collector.py, fim/logging/log_collector.py) - declarative: sets and bags, hence independent
+\* of the order in which nodes and services were created
+Bag(S, f(_)) == [v \in {f(x) : x \in S} |-> Cardinality({x \in S : f(x) = v})]
+CapTok(T, p, fld) == IF "Capacities" \in DOMAIN T.el[p].rp /\ fld \in DOMAIN T.el[p].rp["Capacities"] THEN T.el[p].rp["Capacities"][fld] ELSE "i:0"
+HasCaps(T, p) == "Capacities" \in DOMAIN T.el[p].rp
+\* labels.local_name of the service-side peers of the slice's node interfaces ("ports that are in the slice")
+InSlicePorts(T) ==
+    {T.el[q].rp["Labels"]["local_name"] :
+        q \in {x \in UNION {Peers(T, i) : i \in UNION {NodeIfs(T, n) : n \in ViewNodes(T)}} :
+                  "Labels" \in DOMAIN T.el[x].rp /\ "local_name" \in DOMAIN T.el[x].rp["Labels"]}}
+SvcSiteOrUnknown(T, s) == IF SiteOf(T, s) = "" THEN "UNKNOWN-SITE" ELSE SiteOf(T, s)
+Attrs(T) ==
+    LET ns == ViewNodes(T) ss == Services(T) IN
+    [rtype |-> IF \E n \in ns : T.el[n].type = "Switch" THEN "switch-p4" ELSE "sliver",
+     sites |-> {SiteOf(T, x) : x \in {y \in ns \cup ss : SiteOf(T, y) # ""}},
+     cpu  |-> Bag({n \in ns : HasCaps(T, n)}, LAMBDA n : CapTok(T, n, "core")),
+     ram  |-> Bag({n \in ns : HasCaps(T, n)}, LAMBDA n : CapTok(T, n, "ram")),
+     disk |-> Bag({n \in ns : HasCaps(T, n)}, LAMBDA n : CapTok(T, n, "disk")),
+     comps |-> Bag(UNION {KidsOf(T, n, CO) : n \in ns}, LAMBDA c : T.el[c].type),
+     bw   |-> Bag({s \in ss : HasCaps(T, s)}, LAMBDA s : CapTok(T, s, "bw")),
+     facilities |-> NamesOf(T, {p \in Nodes(T) : IsFacility(T, p)}),
+     v4ext |-> {SvcSiteOrUnknown(T, s) : s \in {x \in ss : T.el[x].type = "FABNetv4Ext"}},
+     v6ext |-> {SvcSiteOrUnknown(T, s) : s \in {x \in ss : T.el[x].type = "FABNetv6Ext"}},
+     \* a port-mirror service needs its site authorised unless the mirrored port is a port of this slice
+     mirror |-> {SvcSiteOrUnknown(T, s) : s \in {x \in ss : T.el[x].type = "PortMirror" /\
+                     ~("MirrorPort" \in DOMAIN T.el[x].sp /\ ("s:" \o T.el[x].sp["MirrorPort"]) \in InSlicePorts(T))}}]
+IntOfTok(t) == CHOOSE n \in 0..512 : IntTok(n) = t
+RECURSIVE SumCores(_, _)
+SumCores(T, S) == IF S = {} THEN 0 ELSE LET n == CHOOSE x \in S : TRUE IN IntOfTok(CapTok(T, n, "core")) + SumCores(T, S \ {n})
+Tally(T) ==
+    LET ns == ViewNodes(T) vms == {n \in ns : T.el[n].type = "VM"} IN
+    [vm_count |-> Cardinality(vms),
+     core_count |-> SumCores(T, {n \in vms : HasCaps(T, n)}),
+     p4_count |-> Cardinality({n \in ns : T.el[n].type = "Switch"}),
+     components |-> Bag(UNION {KidsOf(T, n, CO) : n \in ns}, LAMBDA c : T.el[c].type),
+     services |-> Bag(Services(T), LAMBDA s : T.el[s].type \o ":" \o CapTok(T, s, "bw")),
+     sites |-> {SiteOf(T, x) : x \in {y \in ns \cup Services(T) : SiteOf(T, y) # ""}},
+     facilities |-> NamesOf(T, {p \in Nodes(T) : IsFacility(T, p)})]
+
 \* ------------------------------------------------------------------ dispatch
 \* operations performed THROUGH an element handle: afterwards that handle must report the same interfaces as a fresh
 \* lookup (C08) - the recorder returns, for each handle involved, its cached list and a fresh one
@@ -562,6 +608,10 @@ ApplyRaw(T, o) ==
       [] o.op = "RemoveComponent" -> RemoveComponent(T, o.n, o.name)
       [] o.op = "AddService"     -> AddService(T, o.name, o.nstype, o.ifs, o.site, Fn(o.rp))
       [] o.op = "RemoveService"  -> RemoveService(T, o.name)
+      [] o.op = "AddPortMirror"  -> AddPortMirror(T, o.name, o.from, o.to)
+      [] o.op = "Collect"        -> R(T, "ok", [k |-> "attrs", v |-> Attrs(T)])
+      [] o.op = "CollectASM"     -> R(T, "ok", [k |-> "attrs", v |-> Attrs(T)])
+      [] o.op = "Tally"          -> R(T, "ok", [k |-> "tally", v |-> Tally(T)])
       [] o.op = "Connect"        -> Connect(T, o.s, o.i)
       [] o.op = "Disconnect"     -> Disconnect(T, o.s, o.i)
       [] o.op = "AddFacility"    -> AddFacility(T, o.name, o.site, Fn(o.rp))
